@@ -17,7 +17,7 @@ from harness.props import c01
 from harness.translate.run import regenerate_core
 
 PROP = 'theories/Props/C12.v'
-HEADER = C.HEADER + 'From BT Require Import Core.Check Core.GenProofs.\n'
+HEADER = C.HEADER + 'From BT Require Import Core.Check.\n'
 
 
 def regenerate(ctx):
@@ -95,11 +95,7 @@ def run(ctx):
                         'temporaries are modelled by structured names (base variable + attribute path), an injective '
                         'abstraction of the textual "<obj>_isattr_<name>" names']
     regenerate(ctx)
-    proof_err = None
-    try:
-        ctx.prove(PROP, extra_targets=['theories/Core/Corr.vo', 'theories/Core/Cost.vo'])
-    except CoqFailure as e:
-        proof_err = e
+    proof_err = c01.prove_core(ctx, PROP)
     failures = 0
     try:
         n = {'quick': 250, 'thorough': 7000}[ctx.tier]
